@@ -41,6 +41,13 @@ type Lemma struct {
 	Line int
 }
 
+// LockRely: a field protected by a lock which every critical section of every thread changes only according to Rel.
+type LockRely struct {
+	Lock, Field, Rel string
+	Ranged         bool
+	Lo, Hi         int64
+}
+
 type SpecFile struct {
 	Pkg       string
 	Path      string
@@ -50,6 +57,7 @@ type SpecFile struct {
 	Lemmas    []*Lemma
 	Relies    map[string]string // "Type.field" -> relation
 	Guards    map[string]string // "Type.field" -> "Type.lock"
+	LockRelies []LockRely
 	Deterministic []string      // "Iface.Method" callbacks treated as deterministic functions
 	Lines     []string
 }
@@ -90,6 +98,23 @@ func ParseSpecFile(path string) (*SpecFile, error) {
 				return nil, fmt.Errorf("%s:%d: bad rely", path, lineNos[i])
 			}
 			sf.Relies[f[1]] = f[2]
+		case strings.HasPrefix(t, "lockrely "):
+			// lockrely Type.lock: Type.field nondecreasing
+			rest := strings.TrimPrefix(t, "lockrely ")
+			parts := strings.SplitN(rest, ":", 2)
+			f := strings.Fields(parts[len(parts)-1])
+			if len(parts) != 2 || (len(f) != 2 && len(f) != 3) {
+				return nil, fmt.Errorf("%s:%d: bad lockrely", path, lineNos[i])
+			}
+			lr := LockRely{Lock: strings.TrimSpace(parts[0]), Field: f[0], Rel: f[1]}
+			if len(f) == 3 {
+				// value range lo..hi kept by every critical section
+				if _, err := fmt.Sscanf(f[2], "%d..%d", &lr.Lo, &lr.Hi); err != nil {
+					return nil, fmt.Errorf("%s:%d: bad lockrely range", path, lineNos[i])
+				}
+				lr.Ranged = true
+			}
+			sf.LockRelies = append(sf.LockRelies, lr)
 		case strings.HasPrefix(t, "guards "):
 			// guards Type.lock: Type.f1, Type.f2
 			rest := strings.TrimPrefix(t, "guards ")
